@@ -712,6 +712,9 @@ func (c *fctx) expr(e ast.Expr) string {
 			t.failf(x.Pos(), "selector %s is not a direct struct field", x.Sel.Name)
 		}
 		g := c.typeOf(x.X)
+		if g.k != kStruct {
+			t.failf(x.Pos(), "field selection on a value of type %s", c.info.TypeOf(x.X))
+		}
 		c.typeOf(e) // the field's own type must be in the subset
 		return fmt.Sprintf("(%s_%s %s)", g.st.coq, x.Sel.Name, c.expr(x.X))
 	case *ast.CompositeLit:
@@ -935,6 +938,9 @@ func (c *fctx) store(lhs ast.Expr, val string) (name, newval string) {
 			t.failf(x.Pos(), "assignment to selector %s", x.Sel.Name)
 		}
 		g := c.typeOf(x.X)
+		if g.k != kStruct {
+			t.failf(x.Pos(), "field assignment on a value of type %s", c.info.TypeOf(x.X))
+		}
 		return c.store(x.X, fmt.Sprintf("(set_%s_%s %s %s)", g.st.coq, x.Sel.Name, c.expr(x.X), val))
 	}
 	t.failf(lhs.Pos(), "assignment target of kind %T", lhs)
@@ -1376,6 +1382,11 @@ func run(root, out string, only []string) (status int) {
 				}
 				errs = append(errs, te.msg)
 				t.cur = nil
+				for k, f := range t.fns { // abandoned mid-analysis: must not look like recursion later
+					if f.state == 1 {
+						delete(t.fns, k)
+					}
+				}
 			}
 		}()
 		f()
@@ -1383,9 +1394,6 @@ func run(root, out string, only []string) (status int) {
 	for _, r := range roots {
 		r := r
 		guard(func() { t.analyse(r.key, token.NoPos) })
-		if f := t.fns[r.key]; f != nil && f.state == 1 {
-			delete(t.fns, r.key)
-		}
 	}
 	if len(errs) == 0 {
 		for _, s := range t.sorder {
@@ -1394,7 +1402,10 @@ func run(root, out string, only []string) (status int) {
 					fl := fl
 					guard(func() { t.classify(fl.Pos(), fl.Type()) })
 					s.fields = append(s.fields, fl)
-					guard(func() { t.claim(s.coq+"_"+fl.Name(), "field of "+s.qual); t.claim("set_"+s.coq+"_"+fl.Name(), "setter of "+s.qual) })
+					guard(func() {
+						t.claim(s.coq+"_"+fl.Name(), "field of "+s.qual)
+						t.claim("set_"+s.coq+"_"+fl.Name(), "setter of "+s.qual)
+					})
 				}
 			}
 		}
